@@ -939,7 +939,9 @@ def run_manager_from_cli(input_path, output_directory, validate_only, convert):
 
     if validate_only:
         try:
-            validate_input_file(input_path)
+            if validate_input_file(input_path) != 0:
+                logger.error("Schema validation error. See previous error message for details.")
+                exit(1)
             logger.info("Valid input file.")
             exit(0)
         except ValidationError:
